@@ -1,7 +1,11 @@
 """Shared driver for the properties decided by trace validation of the placement entry points."""
 import shutil
 
+import json
+import os
+
 import tracecheck
+import vlib
 
 
 def moved(c0, c1):
@@ -32,3 +36,57 @@ def first(evs, name, **kw):
 
 def all_of(evs, name, **kw):
     return [e for e in evs if e["e"] == name and all(e.get(k) == v for k, v in kw.items())]
+
+
+def replay_cases(chk, module, cfg, name, workers=8, flavour="asan-ubsan", xmx="8g"):
+    """TLC enumerates cases (checking the spec's own invariants), the replayer compares the real code with the expectation."""
+    exe = vlib.build_exe(flavour, "replay")
+    d = vlib.scratch(chk.pid + "-" + name.replace(" ", "_")[:30])
+    out = os.path.join(d, "cases.out")
+    res = vlib.tlc_ok(vlib.tlc(module, cfg=cfg, workers=workers, stdout_path=out, timeout=3000, xmx=xmx), name)
+    if res["violated"]:
+        raise vlib.FrameworkError("the specification's own invariant failed in %s: %s" % (module, res["violated"]))
+    chk.add_tlc(res, "tlc " + name)
+    rc, so, se = vlib.run_exe(exe, stdin_path=out, timeout=3000)
+    if rc != 0:
+        # a sanitizer report while replaying is a failure of the code under test on that case stream
+        chk.violation("replayer died on %s cases (rc=%s): %s" % (name, rc, (se or "")[-600:]), {"kind": "cases", "module": module, "cfg": cfg}, "replay-crash")
+        return
+    lines = [json.loads(l) for l in so.splitlines() if l.startswith("{")]
+    summ = [l for l in lines if l.get("summary")]
+    if not summ:
+        raise vlib.FrameworkError("replayer produced no summary for " + name)
+    n = summ[0]["n"]
+    if n == 0:
+        raise vlib.FrameworkError("no case replayed for " + name)
+    chk.count(n)
+    chk.cov["_dn_extra"] = chk.cov.get("_dn_extra", 0) + n
+    chk.step("replay " + name, cases=n, mismatches=summ[0]["bad"])
+    for l in lines:
+        if l.get("summary"):
+            continue
+        if not l["ok"]:
+            chk.violation("%s: code disagrees with the specification on case %s: got %s" % (name, json.dumps(l["case"])[:300], json.dumps(l.get("got"))[:200]),
+                          {"kind": "case", "case": l["case"], "flavour": flavour}, "case-mismatch")
+    # keep one sample case
+    with open(out) as f:
+        for line in f:
+            if line.startswith('"{'):
+                chk.sample({"spec_case": json.loads(json.loads(line))}, limit=3)
+                break
+    import shutil
+    shutil.rmtree(d, ignore_errors=True)
+
+
+
+
+def replay_case_file(path, pid):
+    data = json.load(open(path))
+    exe = vlib.build_exe(data["replay"].get("flavour", "asan-ubsan"), "replay")
+    rc, so, se = vlib.run_exe(exe, ["--all"], stdin_text=json.dumps(data["replay"]["case"]) + "\n")
+    bad = rc != 0 or any(not json.loads(l).get("ok", True) for l in (so or "").splitlines() if l.startswith("{") and "summary" not in l)
+    if bad:
+        print("VIOLATION property=%s replay=%s" % (pid, path))
+        return 1
+    print("replay: case passes")
+    return 0
